@@ -42,3 +42,18 @@ Definition huge_aligned_stmt (segment_layer_answer : N -> N -> answer) : Prop :=
    that abstracts its concrete state satisfies answer_ok (C01: fresh, disjoint; C03: usable >= size) *)
 Definition answer_contract_stmt (page_layer_answer : state -> N -> answer) : Prop :=
   forall st size, wf st -> size <= MI_MAX_ALLOC_SIZE -> answer_ok st size (page_layer_answer st size).
+
+(* (2'') the same contract for a lower layer that has its own CONCRETE state: C = the concrete states,
+   inv = its invariant, abs = the abstraction to the map of live blocks, layer_answer = what the layer
+   returns for a request in a concrete state.  answer_contract_stmt is the instance C = state, inv = wf,
+   abs = identity.  For the composite page/span/segment model of Model/Compose.v this statement IS proved:
+   Proofs/ComposeProofs.v compose_answer_contract (Properties/C01compose.v C01_compose_answer_contract), and
+   compose_discharges_answer_contract shows answer_contract_stmt for every answer function all of whose
+   answers are produced by a valid concrete state that abstracts to the abstract state. *)
+Definition answer_contract_for_stmt {C : Type} (inv : C -> Prop) (abs : C -> state)
+                                   (layer_answer : C -> N -> answer) : Prop :=
+  forall c size, inv c -> size <= MI_MAX_ALLOC_SIZE -> answer_ok (abs c) size (layer_answer c size).
+
+Lemma answer_contract_stmt_is_instance f :
+  answer_contract_stmt f <-> answer_contract_for_stmt wf (fun st => st) f.
+Proof. unfold answer_contract_stmt, answer_contract_for_stmt. split; intros H st size; apply H. Qed.
